@@ -553,7 +553,7 @@ def scale_texts():
         ("2 ** 1024", Fraction(2**1024)), ("10 ** 309 + 1", Fraction(10**309 + 1)), ("2 ** 1030 / 2 ** 1027", Fraction(8)), ("(10 ** 400 + 1) % 10 ** 400", Fraction(1)),
         ("1e308 * 10", Fraction(10**309)), ("1e400 / 1e399", Fraction(10)), ("2 ** 1024 - 2 ** 1024", Fraction(0)), ("1 / 2 ** 1100 * 2 ** 1100", Fraction(1)),
         ("{2 ** 1024, 1}.max", Fraction(2**1024)), ("2 ** -1100", Fraction(1, 2**1100)), ("(2 ** 600) * (2 ** 600)", Fraction(2**1200)), ("2 ** 2 ** 10", Fraction(2**1024)),
-        ("-(2 ** 1100) // 3", Fraction((-(2**1100)) // 3)), ("(2 ** 1100 + 1) / 2", Fraction(2**1100 + 1, 2)), ("1e-400 * 1e400", Fraction(1)), ("0x1_0000 ** 65", Fraction(2**1040)),
+        ("-(2 ** 1100) / 3", Fraction(-(2**1100), 3)), ("(2 ** 1100 + 1) / 2", Fraction(2**1100 + 1, 2)), ("1e-400 * 1e400", Fraction(1)), ("0x1_0000 ** 65", Fraction(2**1040)),
         ("-1e309", Fraction(-(10**309))), ("+(3 ** 700)", Fraction(3**700)), ("2 ** 1023 + 2 ** 1022", Fraction(2**1023 + 2**1022)), ("2 ** 1023 * 2", Fraction(2**1024)),
     ]
     out.append(("magnitudes", "".join("@print %s\n" % e for e, _ in big) + "@sealed\n", [(i + 1, v) for i, (_, v) in enumerate(big)]))
